@@ -12,6 +12,12 @@ ENGINES = [
      'kind_free_text': 'preemption-bounded controlled scheduler over compiler-inserted load/store hooks with conflict (race) monitor'},
 ]
 TEXT = {
+    'C11': {
+        'level': 'Exhaustive over finite lattices, bit-equality oracle: all 2^32 floats (thorough; quick: the 2^24 with zero low byte), all doubles with zero low word (2^32 thorough / 2^26 quick), 64 mantissa patterns x all 2047 exponents x sign, +-2 ulp around every power of two and ten, subnormal 2^k+-1, +-0, max: formatted with 17 (9) significant digits by the real formatter and parsed back by the real parser.',
+        'design_ref': 'DESIGN.md §5 C11',
+        'note': 'All floats are covered exhaustively in the thorough tier; doubles only on the described lattices (2^64 cannot be enumerated).',
+        'technique': 'exhaustive enumeration of finite numeric lattices on the implementation (round-trip identity)',
+    },
     'C09': {
         'level': 'Complete enumeration of described numeral lattices on the real converter: all significands up to 4-5 digits x every decimal-point position x every exponent -345..+325 x sign/exponent spellings; all integers within +-2000 of 0, 2^63, 2^64, 10^k; exact decimal expansions of doubles and of midpoints between adjacent doubles (ties) for 16-64 mantissa patterns x all 2047 binary exponents, truncated to 17..400..all digits; the 1.7e308..1e310 band; every string of <=6-7 units over {0 1 9 . e E + -}. Oracle: glibc strtod, consumed length, exact integer arithmetic.',
         'design_ref': 'DESIGN.md §5 C09',
